@@ -13,6 +13,8 @@ Reference models: mc/ref/trs_ref.py (numpy only).
 
 Finding keys (discrete labels only):
   <routine>|mode=<euclid|precond>|type=<returned step type>|<signature>          truncated-CG routines
+  solve_trust_region_minimization|mode=precond|pre=<preconditioner class>|recurrence-norm-off
+                                  (radius / boundary claim in the recurrence-tracked M-norm off by > 1e-5)
   dogleg_step|norm=<identity|matrix>|class=<pair class>|<signature>
   treigen.solve|<interior|boundary|hard-case>|eigenbasis=<identity|generic>|<signature>
   treigen.solve|hard-case|pz=0|nonfinite                                         (division by sign(0))
@@ -58,10 +60,9 @@ ASSUMPTIONS = [
     "recurrence residual, not the true one)",
     "iteration-capped exits ('interior_') only claim ball membership and Cauchy decrease",
     "preconditioned-inner-product mode tracks z.M.z by recurrences that are exact only for exact CG; the radius and "
-    "boundary claims in that mode are checked to 1e-6 in the regime cond(H) cond(M) <= 1e8 and iterations <= n, to "
-    "1e-3 when one of the two fails, and not at all when both fail (singular / 1e8-conditioned H with a 1e4-conditioned "
-    "unrelated preconditioner, CG continued past the dimension of the space) -- those executions are counted in "
-    "branch_coverage and their discrepancies are listed in observed_maxima",
+    "boundary claims in that mode are checked to 1e-5 whenever CG stopped within n iterations and are not checked when "
+    "it ran longer (in exact arithmetic it cannot; the orthogonality the recurrences rest on is then lost) -- those "
+    "executions are counted in branch_coverage and their discrepancies are listed in observed_maxima",
     "ModelProblem is given linearly independent vectors (smallest singular value of the normalised set >= 1e-3); "
     "dependent sets are inadmissible for its one-pass Gram-Schmidt and are counted, not executed",
     "radii 1e-6..1e6; spectra with |sig| in [1e-8, 1e3]; gradients of norm 1 (1e-12 for the 'tiny' class)",
@@ -73,11 +74,12 @@ ASSUMPTIONS = [
 ]
 TOLERANCES = {
     "ball_euclid": "z.z <= Delta^2 (1 + 1e-9)  [a-priori: a few ulps; observed see observed_maxima]",
-    "ball_precond": "z.M.z <= Delta^2 (1 + tau): tau = 1e-6 when cond(H) cond(M) <= 1e8 and iterations <= n "
-                    "(observed 4.6e-11); 1e-3 when exactly one of the two fails (observed 5.4e-8 / 3.8e-6; a-priori "
-                    "eps cond(H) cond(M)); not checked when both fail (observed 0.17: orthogonality is lost, the "
-                    "recurrence-tracked norm has O(1) a-priori error)",
-    "on_boundary": "| ||z||_N / Delta - 1 | <= 1e-9 (Euclid) / the same tau as ball_precond (preconditioned recurrences)",
+    "ball_precond": "z.M.z <= Delta^2 (1 + 1e-5) when iterations <= n  [recurrence drift; observed over both tiers: "
+                    "<= 3.2e-8 with the identity / exact / scaled / diagonal preconditioners on non-singular H, so 1e-5 "
+                    ">= 100x; a wrong recurrence gives >= 0.1. With the poor (cond 1e4, unrelated) preconditioner the "
+                    "drift reaches 3.8e-6 (n<=8) and 5.9e-5 (n=40): above 1e-5 it is reported as a finding]; "
+                    "not checked when CG ran more than n iterations (observed up to 0.73: orthogonality lost)",
+    "on_boundary": "| ||z||_N / Delta - 1 | <= 1e-9 (Euclid) / 1e-5 (preconditioned recurrences, iterations <= n)",
     "cauchy": "model(z) <= model(cauchy) + 1e-10 (|g| L + ||H|| L^2), L = max(|z|,|z_cauchy|); and model(z) <= 0 + the same allowance "
               "(H itself is only known to 1e-16 ||H||, so z.H.z carries an error ~1e-16 ||H|| L^2)",
     "interior_residual": "||H z + g|| <= sqrt(cgTolSquared) + 1e-9 (||H|| |z| + |g|)",
@@ -99,8 +101,8 @@ DOGLEG_CLASSES = ["both-inside", "cp-outside", "newton-outside", "cp-longer", "c
                   "opposite"]
 DOGLEG_DIRS = ["axes", "generic"]
 
-TAU_BALL = {"euclid": 1e-9, "precond": 1e-6, "precond-ill": 1e-3}
-COND_WELL = 1e8          # cond(H) * cond(M) up to which the preconditioned norm recurrences are held to 1e-6
+TAU_BALL = {"euclid": 1e-9, "precond": 1e-5}
+COND_WELL = 1e8          # cond(H) * cond(M): label for the calibration table only (observed_maxima)
 TAU_CAUCHY = 1e-10
 TAU_RES = 1e-9
 TAU_DOGLEG_PATH = 1e-10
@@ -385,21 +387,20 @@ def _run_truncated_cg(g, tier, seed, rec):
                                 tauN, regime = TAU_BALL["euclid"], "euclid"
                             else:
                                 regime = "precond:pre=%s:cond-%s:%s" % (pl, cond, "iters<=n" if iters <= n else "iters>n")
-                                if cond == "well" and iters <= n:
-                                    tauN = TAU_BALL["precond"]
-                                elif cond == "well" or iters <= n:
-                                    tauN = TAU_BALL["precond-ill"]
-                                else:
-                                    # ill-conditioned AND iterated past the dimension of the space: in exact arithmetic
-                                    # CG has terminated; the a-priori error of the recurrence-tracked norm is O(1), so
-                                    # no norm claim is checked (clause (b) still is). Discrepancies stay visible below.
+                                tauN = TAU_BALL["precond"]
+                                if iters > n:
+                                    # CG continued past the dimension of the space: in exact arithmetic it has
+                                    # terminated, the CG orthogonality relations the norm recurrences rest on are
+                                    # lost (a-priori error O(1)); no norm claim is checked (clause (b) still is).
+                                    # The discrepancies stay visible in observed_maxima.
                                     tauN = None
-                                    rec.branch("%s:precond-norm-claims-not-checked(cond-ill,iters>n)" % routine)
+                                    rec.branch("%s:precond-norm-claims-not-checked(iters>n)" % routine)
                             nn = ref.nnorm_sq(z, N)
                             ratio_n = math.sqrt(nn) / Delta
                             rec.track_max("%s:%s:ball_excess(||z||_N/Delta-1)" % (routine, regime), ratio_n - 1.0)
+                            norm_off = None
                             if tauN is not None and nn > Delta * Delta * (1.0 + tauN):
-                                fail("outside-ball", stype, {"z": z, "norm_over_Delta": ratio_n, "iters": iters})
+                                norm_off = "outside-ball"
                             # (b) Cauchy decrease, never an increase
                             mz = ref.model(H, gv, z)
                             L = max(float(onp.linalg.norm(z)), float(onp.linalg.norm(cau["z"])))
@@ -421,7 +422,18 @@ def _run_truncated_cg(g, tier, seed, rec):
                             if stype in ("boundary", "neg curve"):
                                 rec.track_max("%s:%s:boundary_defect|ratio-1|" % (routine, regime), abs(ratio_n - 1.0))
                                 if tauN is not None and abs(ratio_n - 1.0) > tauN:
-                                    fail("off-boundary", stype, {"z": z, "norm_over_Delta": ratio_n, "iters": iters})
+                                    norm_off = norm_off or "off-boundary"
+                            if norm_off is not None:
+                                if ml == "euclid":
+                                    fail(norm_off, stype, {"z": z, "norm_over_Delta": ratio_n, "iters": iters})
+                                else:
+                                    # recurrence-tracked norm: one key per preconditioner class (type and
+                                    # outside/off-boundary are in the detail)
+                                    rec.violation("%s|mode=precond|pre=%s|recurrence-norm-off" % (rname, pl), cid,
+                                                  {"H": H, "g": gv, "Delta": Delta, "P": P, "M": M, "max_cg_iters": cap,
+                                                   "cg_tol": cgtol, "cg_inexact_solve_ratio": ratio, "z": z,
+                                                   "type": stype, "what": norm_off, "norm_over_Delta": ratio_n,
+                                                   "iters": iters, "n": n})
                             # (d) interior claim: Newton system solved to the stated tolerance
                             if stype == "interior":
                                 res = float(onp.linalg.norm(H @ z + gv))
